@@ -106,3 +106,9 @@ claim('C14', 'fault_enumeration', 'trace conformance: the callback invocation lo
       'validation after every stored value before any later item), and for every k the k-th invocation returns failure: the parse must fail there, no further callback may run and the tree must equal the interpreter state. Pre-set validators are checked '
       'for accept / rewrite / veto. "For all choices of which single invocation fails" is a fault enumeration over the trace.',
       'Trusts: model_lang for the expected trace; additional validation calls on an unchanged option are tolerated; callbacks on list options with declared defaults are not generated (the library parses those defaults through the callbacks at instantiation).')
+
+claim('C02', 'exploration', 'coverage-guided fuzzing (libFuzzer + ASan/UBSan with stdout/stdin/return-code/usability monitors), enumerated pathological shapes through the driver (ASan and plain builds, hang watchdog), generated and mutated texts under MemorySanitizer and valgrind memcheck',
+      'Robustness is a statement about all byte strings, so the oracle is the instrumentation itself: sanitizer reports, signals, process exit (caught by libFuzzer), hangs (watchdog with solitary re-run), bytes on a captured stdout, reads of a sentinel stdin, '
+      'and the post-parse usability steps (walk, print, parse again, free). Reach comes from coverage guidance over four entry points x eight flag sets, from ~90 classes of hand-enumerated hostile shapes (huge tokens to 16 MiB, nesting ladders to 10^5, '
+      'every unterminated construct, NULs, directories / dangling / looping links / self-include as targets) and from mutated grammar texts on MSan/valgrind. Exploration is the honest level: the evidence reports executions, coverage features and corpus size.',
+      'Trusts: the sanitizers (a clean run is not a proof: red-zone tools miss non-adjacent overflows); fuzz inputs naming /dev, /proc or /sys paths are skipped; token sizes above 256 KiB run without ASan because of the scanner\'s 32-byte buffer growth.')
